@@ -704,6 +704,61 @@ theorem comm_measure (s : Setting) (fwd : Bool) {ph ph' : Nat → Phase} (hstep 
     | finish q hq hp _ => exact todoSum_update_lt _ ph q hq _ (by rw [hp]; decide)
   · exact todoSum_eq_zero _ _
 
+/-! ## 8. What the translator regenerates from the source (tools/translators/tr_c05.py → Gen/C05.lean) -/
+
+/-- **interface_tests_regenerated.**  The attribute tests of the counting loop and of the adding loop of
+    `InterfaceBuilder::buildInterface`, as read from the current interface.hh, are both the documented test
+    (`passes`): remote attribute in the other side's set, own attribute in the own side's set.  `countPass` and
+    `addPass` — and through them `interface_spec` and everything above — are evaluated with the regenerated tests. -/
+theorem interface_tests_regenerated : passesCount = passes ∧ passesAdd = passes := ⟨passesCount_eq, passesAdd_eq⟩
+
+/-- **attrsets_spec.**  The `contains` functions of the six attribute set classes, as read from the current
+    enumset.hh, have the documented meaning (EnumRange includes both borders). -/
+theorem attrsets_spec (i lo hi item : Int) (s s1 s2 : Int → Bool) :
+    Gen.emptySetContains item = false ∧ Gen.allSetContains item = true ∧
+    (Gen.enumItemContains i item = true ↔ item = i) ∧
+    (Gen.enumRangeContains lo hi item = true ↔ lo ≤ item ∧ item ≤ hi) ∧
+    Gen.negateSetContains s item = (!(s item)) ∧
+    Gen.combineContains s1 s2 item = (s1 item || s2 item) := by
+  refine ⟨by simp [Gen.emptySetContains], by simp [Gen.allSetContains], ?_, ?_, ?_, ?_⟩
+  · simp [Gen.enumItemContains] <;> omega
+  · simp [Gen.enumRangeContains] <;> omega
+  · cases h : s item <;> simp [Gen.negateSetContains, h]
+  · cases h1 : s1 item <;> cases h2 : s2 item <;> simp [Gen.combineContains, h1, h2]
+
+/-- the set an expression over the enumset.hh classes denotes -/
+def SetExpr.denote : SetExpr → Int → Prop
+  | .empty, _ => False
+  | .all, _ => True
+  | .item i, x => x = i
+  | .range lo hi, x => lo ≤ x ∧ x ≤ hi
+  | .neg s, x => ¬ s.denote x
+  | .comb a b, x => a.denote x ∨ b.denote x
+
+/-- **setExpr_spec.**  Every attribute set written with these classes, however nested, contains exactly the
+    attributes of the set it denotes. -/
+theorem setExpr_spec (e : SetExpr) (x : Int) : e.contains x = true ↔ e.denote x := by
+  induction e with
+  | empty => simp [SetExpr.contains, SetExpr.denote, (attrsets_spec 0 0 0 x (fun _ => true) (fun _ => true) (fun _ => true)).1]
+  | all => simp [SetExpr.contains, SetExpr.denote, (attrsets_spec 0 0 0 x (fun _ => true) (fun _ => true) (fun _ => true)).2.1]
+  | item i => simpa [SetExpr.contains, SetExpr.denote] using
+      (attrsets_spec i 0 0 x (fun _ => true) (fun _ => true) (fun _ => true)).2.2.1
+  | range lo hi => simpa [SetExpr.contains, SetExpr.denote] using
+      (attrsets_spec 0 lo hi x (fun _ => true) (fun _ => true) (fun _ => true)).2.2.2.1
+  | neg s ih =>
+    simp only [SetExpr.contains, SetExpr.denote, (attrsets_spec 0 0 0 x s.contains (fun _ => true) (fun _ => true)).2.2.2.2.1,
+      ← ih]
+    cases s.contains x <;> simp
+  | comb a b iha ihb =>
+    simp only [SetExpr.contains, SetExpr.denote, (attrsets_spec 0 0 0 x (fun _ => true) a.contains b.contains).2.2.2.2.2,
+      ← iha, ← ihb, Bool.or_eq_true]
+
+/-- **attrset_tables.**  Both spellings of the sixteen attribute sets the harness uses (plain classes; nested
+    `Combine`, `NegateSet<Combine<…>>`, `combine()`) denote the set given by the bit mask. -/
+theorem attrset_tables : ∀ m, m < 16 → ∀ a, a < 4 →
+    maskSet false m a = ((m >>> a) % 2 == 1) ∧ maskSet true m a = ((m >>> a) % 2 == 1) := by
+  decide
+
 /-! ## Non-vacuity: the hypotheses are satisfiable by non-trivial decompositions
 
 `exSys`: three processes, one index set each (global, local, attribute, public); attributes 0 = owner,
@@ -840,5 +895,9 @@ example : todoSum 3 (fun _ => Phase.idle) = 6 := by decide
     of process 0 has two senders, the entries of process 1 … -/
 example : (ex.expectedBack (fun p l j => (p, l, j)) 0).map (·.2) = [(1, 0), (1, 0)] := by decide
 example : ((exBack.expectedBack (fun p l j => (p, l, j)) 2).map (·.2)).Nodup := by decide
+
+
+/-- setExpr_spec / attrset_tables: a negated union of a range and an item (mask 1 written as `A1` in the harness) -/
+example : (altTable.getD 1 .empty).contains 0 = true ∧ (altTable.getD 1 .empty).contains 2 = false := by decide
 
 end DV.C05
